@@ -219,6 +219,10 @@ def run_klattice(case):
         if isinstance(o2, KOracle):
             orc = o2
     base = catch(lambda: obs_view(w))
+    # A SeqDataView constructed with a non-zero offset is not reachable through the library (SeqsData
+    # has no offsets: get_seq_view never passes one, "SeqsData needs new fields that record the offsets");
+    # the property does not speak about it.  The block stays as model-vs-implementation correspondence only.
+    speaks = not (cls == "sdv" and off != 0)
     out = []
     bad = []
     states = {}
@@ -230,7 +234,7 @@ def run_klattice(case):
                 op = ("s", a, b, c)
                 ob = catch(lambda: obs_view(apply_kop(w, op)))
                 out.append(ob)
-                o2 = orc.apply(op)
+                o2 = orc.apply(op) if speaks else None
                 if o2 is None:
                     continue
                 aspect = o2.check(ob)
